@@ -1028,6 +1028,60 @@ fn cast_into_memory(
         return Some(memory.into_value(builder, ptr_ty));
     }
 
+    // a variant that goes into an optional or an error union of its own enum
+    // (e.g. `return My_Error.Oops;` in a function returning `My_Error!u64`) has to become
+    // the enum first. otherwise the unwrapping below would leave only the variant's payload,
+    // and that payload would be casted as if it was the value itself
+    if let Ty::EnumVariant {
+        enum_uid: from_enum_uid,
+        ..
+    } = cast_from.as_ref()
+    {
+        let is_own_enum = |ty: &Intern<Ty>| matches!(ty.absolute_ty(), Ty::Enum { uid, .. } if uid == from_enum_uid);
+
+        let enum_ty = match cast_to.as_ref() {
+            Ty::Optional { sub_ty } => Some(*sub_ty),
+            Ty::ErrorUnion {
+                error_ty,
+                payload_ty,
+            } => {
+                if is_own_enum(payload_ty) {
+                    Some(*payload_ty)
+                } else {
+                    Some(*error_ty)
+                }
+            }
+            _ => None,
+        }
+        .filter(is_own_enum);
+
+        if let Some(enum_ty) = enum_ty {
+            let as_enum = cast_into_memory(
+                meta_tys,
+                module,
+                builder,
+                func_writer,
+                ptr_ty,
+                val,
+                cast_from_original,
+                enum_ty,
+                None,
+            );
+
+            return cast_into_memory(
+                meta_tys,
+                module,
+                builder,
+                func_writer,
+                ptr_ty,
+                as_enum,
+                enum_ty,
+                cast_to,
+                memory,
+            );
+        }
+    }
+
     // if it wasn't variant -> enum, we unwrap the variant fully and check for other casts
     cast_from = cast_from.absolute_intern_ty(true);
 
